@@ -308,7 +308,7 @@ func Generate(r *rand.Rand, cfg GenCfg, rec *Recorder) *Scenario {
 			np := 0
 			if cfg.MaxParents > 1 {
 				np = cfg.MaxParents - 1
-				if r.Intn(4) == 0 {
+				if r.Intn(4) == 0 && !cfg.Sleeper {
 					np = r.Intn(cfg.MaxParents)
 				}
 			}
